@@ -132,9 +132,170 @@ let run_bud msize toks =
   Buffer.add_string b (if !s.b_err then " T:MODEL-ERR" else " T:ok");
   Buffer.contents b
 
+
+(* ---- resource model: the process cache over the buddy model (mode exh) ---- *)
+let bytes_of_string (x : string) : n list = List.init (String.length x) (fun i -> byte_tab.(Char.code x.[i]))
+let padded tag id j len fill =
+  let r = if j >= 0 then Printf.sprintf "%c%d_%d_" tag id j else Printf.sprintf "%c%d_" tag id in
+  if String.length r < len then r ^ String.make (len - String.length r) fill else r
+let tlen_of spec j =
+  match String.split_on_char '-' spec with
+  | [a] -> int_of_string a
+  | a :: b :: _ -> let lo = int_of_string a and hi = max (int_of_string a) (int_of_string b) in lo + (j * 7) mod (hi - lo + 1)
+  | [] -> 0
+let two = n_of_int 2
+let run_exh kib limit _t0 _pct steps =
+  let seg = int_of_string kib * 1024 in
+  let a0 = b_init (n_of_int seg) in
+  (* mem_cache::operator new: the object itself lives in the segment (a block of another owner for the model) *)
+  let (_obj, a1) = b_malloc sz_object a0 in
+  (* the constructor ends with nl_clear(): two bucket vectors of `limit` buckets (none for limit 0) *)
+  let r = ref (rclear (r_init a1 (n_of_string limit))) in
+  let hogs = ref [||] in
+  let lru = ref [] in                      (* keys, most recently stored first *)
+  (* replace the chains of functional updates by tables with the same values *)
+  let pages () =
+    let st = !r.r_a in
+    let l = ref [] and pos = ref N0 and go = ref true and guard = ref 0 in
+    while !go && !guard < 10000000 do
+      incr guard;
+      match st.b_hdr !pos with
+      | None -> go := false
+      | Some (bits, u) -> l := (!pos, bits, u) :: !l; pos := N.add !pos (N.pow two bits)
+    done;
+    List.rev !l in
+  let compact () =
+    let st = !r.r_a in
+    let arr = Array.init 64 (fun i -> st.b_fl (n_of_int i)) in
+    let oldf = st.b_fl in
+    let h = Hashtbl.create 1024 in
+    List.iter (fun (o, b, u) -> Hashtbl.replace h (int_of_n o) (b, u)) (pages ());
+    let msz = int_of_n st.b_msize in
+    let oldh = st.b_hdr in
+    r := with_a { st with b_fl = (fun b -> let i = int_of_n b in if i < 64 then arr.(i) else oldf b);
+                          b_hdr = (fun o -> match o with
+                                     | N0 -> Hashtbl.find_opt h 0
+                                     | Npos p -> if pos_bits p <= 40 then (let i = int_of_n o in if i <= msz then Hashtbl.find_opt h i else oldh o) else oldh o) } !r in
+  let has_pn k = List.exists (fun (t, _) -> match t with TPN k' -> k' = k | _ -> false) !r.r_b in
+  let stats () =
+    let keys = List.length (List.filter (fun (t, _) -> match t with TPN _ -> true | _ -> false) !r.r_b) in
+    let trg = List.length (List.filter (fun (t, _) -> match t with TL (_, _) -> true | _ -> false) !r.r_b) in
+    Printf.sprintf "%d/%d" keys trg in
+  let b = Buffer.create 4096 in
+  List.iteri (fun i st ->
+    if i > 0 then Buffer.add_char b ' ';
+    let f = String.split_on_char ':' st in
+    (match f with
+    | ["M"] ->
+        let pg = pages () in
+        let used = List.fold_left (fun acc (_, bits, u) -> if u then acc + (1 lsl int_of_n bits) else acc) 0 pg in
+        let free = List.filter (fun (_, _, u) -> not u) pg in
+        let ptxt =
+          if List.length free <= 24 then
+            (if free = [] then "-" else String.concat "," (List.map (fun (o, bits, _) -> string_of_n o ^ "." ^ string_of_n bits) free))
+          else begin
+            let h = ref 0xcbf29ce484222325L in
+            List.iter (fun (o, bits, _) ->
+              h := Int64.mul (Int64.logxor !h (Int64.of_int (int_of_n o * 64 + int_of_n bits))) 0x100000001b3L) free;
+            Printf.sprintf "n%d.%Lx" (List.length free) !h end in
+        Buffer.add_string b (Printf.sprintf "M:%s:%d:%s:%s:%s:%s" (stats ()) used (string_of_n (total_free_memory !r.r_a))
+                               (string_of_n (max_free_chunk !r.r_a)) ptxt (if !r.r_a.b_err then "MODEL-ERR" else "ok"))
+    | [h; keep; stride] when String.length h > 1 && h.[0] = 'H' ->
+        let sz = n_of_string (String.sub h 1 (String.length h - 1)) and keep = int_of_string keep and stride = max 1 (int_of_string stride) in
+        let l = ref (List.rev (Array.to_list !hogs)) in
+        let go = ref true and cnt = ref 0 in
+        while !go do
+          let (p, a) = b_malloc sz !r.r_a in
+          r := with_a a !r;
+          (match p with Some _ -> l := p :: !l | None -> go := false);
+          incr cnt; if !cnt land 15 = 0 then compact ()
+        done;
+        let arr = Array.of_list (List.rev !l) in
+        let n = Array.length arr in
+        let j = ref 0 in
+        while !j < keep && !j * stride < n do
+          let idx = n - 1 - !j * stride in
+          (match arr.(idx) with Some p -> r := with_a (b_free p !r.r_a) !r; arr.(idx) <- None | None -> ());
+          incr j
+        done;
+        hogs := arr;
+        Buffer.add_string b (Printf.sprintf "H%d" (Array.fold_left (fun c p -> if p = None then c else c + 1) 0 arr))
+    | ["U"] ->
+        Array.iteri (fun idx p -> (match p with Some p -> r := with_a (b_free p !r.r_a) !r | None -> ()); if idx land 15 = 0 then compact ()) !hogs;
+        hogs := [||];
+        Buffer.add_string b "U"
+    | ["S"; klen; vlen; nt; tspec; id] ->
+        let id = int_of_string id in
+        let key = padded 'K' id (-1) (int_of_string klen) 'k' in
+        let v = List.init (int_of_string vlen) (fun _ -> byte_tab.(97 + id mod 26)) in
+        let names = List.sort_uniq compare (List.init (int_of_string nt) (fun j -> padded 'T' id j (tlen_of tspec j) 't')) in
+        let names = List.filter (fun t -> t <> key) names in
+        let k = bytes_of_string key in
+        (* check_limits(): evict the least recently stored entry while not_enough_memory() (deadlines are never reached here) *)
+        let (r1, ok) = opt_alloc TAr (strsz v) !r in
+        let ev = ref [] in
+        if ok then begin
+          let cur = ref (r_delete_node k r1) and order = ref (List.rev (List.filter (fun x -> x <> k) !lru)) in
+          let pressed () = not_enough_memory (n_of_int seg) !cur.r_a in
+          while !order <> [] && pressed () do
+            let victim = List.hd !order in
+            order := List.tl !order; ev := victim :: !ev; cur := r_delete_node victim !cur
+          done end;
+        r := r_store true k v (List.map bytes_of_string names) (List.rev !ev) !r;
+        lru := k :: List.filter (fun x -> x <> k) !lru;
+        lru := List.filter has_pn !lru;
+        Buffer.add_string b ("s" ^ stats ())
+    | ["D"; klen; id] ->
+        let k = bytes_of_string (padded 'K' (int_of_string id) (-1) (int_of_string klen) 'k') in
+        r := rstep true (RRemove k) !r; lru := List.filter has_pn !lru;
+        Buffer.add_string b ("d" ^ stats ())
+    | ["R"; tspec; id; j] ->
+        let j = int_of_string j in
+        let t = bytes_of_string (padded 'T' (int_of_string id) j (tlen_of tspec j) 't') in
+        r := rstep true (RRise t) !r; lru := List.filter has_pn !lru;
+        Buffer.add_string b ("r" ^ stats ())
+    | ["C"] ->
+        let threw = not (snd (nl_clear !r)) in
+        r := rclear !r; lru := List.filter has_pn !lru; Buffer.add_string b ((if threw then "c!" else "c") ^ stats ())
+    | _ -> Buffer.add_string b "UNSUPPORTED");
+    compact ()) steps;
+  Buffer.contents b
+
+
+(* ---- failure injection at the k-th allocation of one store (mode inj, limit 0) ---- *)
+let run_inj limit klen vlen nt tspec kmax npre =
+  if limit <> "0" then "UNSUPPORTED" else begin
+  let klen = int_of_string klen and vlen = int_of_string vlen and nt = int_of_string nt in
+  let b = Buffer.create 4096 in
+  let a0 = b_init (n_of_int (4 * 1024 * 1024)) in
+  for k = 1 to int_of_string kmax do
+    let r = ref (r_init a0 N0) in
+    for i = 0 to int_of_string npre - 1 do
+      let v = List.init vlen (fun _ -> byte_tab.(97 + i mod 26)) in
+      r := r_store true (bytes_of_string (padded 'P' i (-1) klen 'k')) v [bytes_of_string (padded 'A' 0 (-1) (tlen_of tspec 0) 't')] [] !r
+    done;
+    let key = padded 'K' k (-1) klen 'k' in
+    let kb = bytes_of_string key in
+    let v = List.init vlen (fun _ -> byte_tab.(97 + k mod 26)) in
+    let names = List.filter (fun t -> t <> key) (List.sort_uniq compare (List.init nt (fun j -> padded 'T' k j (tlen_of tspec j) 't'))) in
+    r := rstep true (RInject (List.init k (fun i -> i = k - 1))) !r;
+    r := r_store true kb v (List.map bytes_of_string names) [] !r;
+    let fired = (!r.r_faults = []) in
+    let keys = List.length (List.filter (fun (t, _) -> match t with TPN _ -> true | _ -> false) !r.r_b) in
+    let trg = List.length (List.filter (fun (t, _) -> match t with TL (_, _) -> true | _ -> false) !r.r_b) in
+    let hit = List.exists (fun (t, _) -> match t with TPN k' -> k' = kb | _ -> false) !r.r_b in
+    if k > 1 then Buffer.add_char b ' ';
+    Buffer.add_string b (Printf.sprintf "%d:%d/%d:%s:0:ok" (if fired then 1 else 0) keys trg (if hit then "h1" else "m"))
+  done;
+  Buffer.contents b end
+
 let () = main_loop (function
   | "seq" :: _backend :: lim :: t0 :: toks -> run_seq lim t0 toks
   | ["bud"; "consts"] ->
       string_of_n alignment_bits ^ " " ^ string_of_n alignment ^ " " ^ string_of_n page_in_use ^ " " ^ string_of_n self_size ^ " " ^ string_of_n page_header_size
   | "bud" :: msize :: toks -> run_bud msize toks
+  | ["inj"; limit; _t0; klen; vlen; nt; tspec; kmax; npre] -> run_inj limit klen vlen nt tspec kmax npre
+  | ["exh"; "consts"] ->
+      String.concat " " (List.map string_of_n [sz_sso; sz_object; sz_pnode; sz_tnode; sz_lnode; sz_tlnode; sz_rbnode; sz_bucket])
+  | "exh" :: kib :: limit :: t0 :: pct :: steps -> run_exh kib limit t0 pct steps
   | _ -> "BAD-CASE")
